@@ -55,6 +55,9 @@ func Main() int {
 		*prop = r.Property
 		replayKey = r.Obligation.Key
 	}
+	if *prop == "all" {
+		return runAll(*repo, *knownPath)
+	}
 	spec := registry[*prop]
 	if spec == nil {
 		fmt.Printf("CHECKER-ERROR unknown property %q\n", *prop)
@@ -119,4 +122,55 @@ func Main() int {
 		exit = ctx.Finish(spec, start, *evidencePath, *knownPath, *findingsDir, cmdline, extra)
 	}()
 	return exit
+}
+
+// runAll loads the tree once and evaluates every registered property; used by
+// the mutant matrix (tools/seedmatrix.sh).  No evidence is written.
+func runAll(repo, knownPath string) int {
+	var ids []string
+	for id := range registry {
+		ids = append(ids, id)
+	}
+	sort.Strings(ids)
+	var p *Prog
+	func() {
+		defer func() {
+			if r := recover(); r != nil {
+				if ce, ok := r.(CheckerError); ok {
+					fmt.Printf("CHECKER-ERROR property=all %s\n", ce.Msg)
+				} else {
+					fmt.Printf("CHECKER-ERROR property=all panic: %v\n", r)
+				}
+				p = nil
+			}
+		}()
+		p = Load(repo, "", false)
+		p.BuildCallGraph()
+	}()
+	if p == nil {
+		return 3
+	}
+	worst := 0
+	for _, id := range ids {
+		spec := registry[id]
+		exit := 3
+		func() {
+			defer func() {
+				if r := recover(); r != nil {
+					if ce, ok := r.(CheckerError); ok {
+						fmt.Printf("CHECKER-ERROR property=%s %s\n", spec.ID, ce.Msg)
+					} else {
+						fmt.Printf("CHECKER-ERROR property=%s panic: %v\n%s\n", spec.ID, r, debug.Stack())
+					}
+				}
+			}()
+			ctx := &Ctx{P: p, Property: spec.ID, Tier: "quick"}
+			spec.Run(ctx)
+			exit = ctx.Finish(spec, time.Now(), "", knownPath, "", "vgcheck -property all", nil)
+		}()
+		if exit > worst {
+			worst = exit
+		}
+	}
+	return worst
 }
